@@ -778,7 +778,7 @@ example : joinTsSchema.apply (.replace 3 5 Slice.empty true) joinTsDoc = .error 
     is **false** for the model and for the code alike (upstream too; finding C12-wrap-ignores-marks):
     `find_wrapping_inside` walks the innermost wrapper's automaton over the *types* of the nodes of the range, the
     wrap itself (`ReplaceAroundStep.apply` → `Slice.insert_at` → `insert_into`) asks that wrapper
-    `can_replace(0, 0, nodes)`, which also wants it to allow their *marks*.  In a schema whose `doc` allows marks
+    `valid_content(nodes)`, which also wants it to allow their *marks*.  In a schema whose `doc` allows marks
     on its block children (`marks: "_"`), `doc(em(p("a")))`: `find_wrapping(range of the paragraph, quote)`
     approves `[quote]` and `Transform.wrap` raises `TransformError("Content does not fit in gap")`
     (`wrapCex…` below).  `wrapGuard` (PM/StructEdit.lean) is that test (and "no wrapper type is a leaf type",
